@@ -150,6 +150,7 @@ FALLBACK = {
     "c17InitMergeOrder": '["names", "fixed"]',
     "c17GetattrFixed": '["cached_properties", "_cached_setattr_get", "original_getattr"]',
     "c17GetattrMergeOrder": '["fixed"]',
+    "c17EvalExtraBindings": '[]',
     # C16: names the per-class closures rebind in their factory's scope (`nonlocal`/`global` statements)
     "attrsWrapRebinds": "[]",
     "defineWrapRebinds": "[]",
@@ -172,7 +173,7 @@ TYPES = {
     "c17ReprAffix": "String × String", "c17ReprCallAffix": "String × String",
     "c17ReprFixed": "List String", "c17EqFixed": "List String", "c17HashFixed": "List String",
     "c17InitFixed": "List String", "c17EvalMergeOrder": "List String", "c17InitMergeOrder": "List String",
-    "c17GetattrFixed": "List String", "c17GetattrMergeOrder": "List String",
+    "c17GetattrFixed": "List String", "c17GetattrMergeOrder": "List String", "c17EvalExtraBindings": "List String",
     "attrsWrapRebinds": "List String", "defineWrapRebinds": "List String", "makeClassDictAliased": "Bool",
     "configReaders": "List String",
 }
@@ -394,6 +395,22 @@ def _make_class_dict_aliased(mk: Src) -> str:
     return "false"
 
 
+def _c17_eval_extra_bindings(mk: Src) -> str:
+    """bindings `_eval_snippets` puts into the globals of the generated methods under a name that is not a
+    constant (`globs[<expr>] = ...`, `globs.setdefault(<expr>, ...)`): names nobody can vouch for statically"""
+    fn = mk.func("_eval_snippets")
+    out = []
+    for n in _in_order(fn):
+        if isinstance(n, (ast.Assign, ast.AugAssign, ast.AnnAssign)):
+            targets = n.targets if isinstance(n, ast.Assign) else [n.target]
+            for t in targets:
+                if isinstance(t, ast.Subscript) and ast.unparse(t.value) == "globs":
+                    out.append(ast.unparse(t.slice))
+        elif isinstance(n, ast.Call) and ast.unparse(n.func) in ("globs.setdefault", "globs.__setitem__") and n.args:
+            out.append(ast.unparse(n.args[0]))
+    return lean_list([lean_str(x) for x in out])
+
+
 def _c17_getattr_globals(mk: Src):
     """globals dict of the cached-property __getattr__ script: constant keys and the order of its sources"""
     fn = mk.func("_make_cached_property_getattr")
@@ -509,6 +526,7 @@ def extract() -> tuple[dict, list]:
     item("c17InitFixed", lambda: _c17_fixed_globs(mk(), "_make_init_script"))
     item("c17EvalMergeOrder", lambda: _c17_merge_order(mk(), "_eval_snippets"))
     item("c17InitMergeOrder", lambda: _c17_merge_order(mk(), "_make_init_script"))
+    item("c17EvalExtraBindings", lambda: _c17_eval_extra_bindings(mk()))
     item("c17GetattrFixed", lambda: _c17_getattr_globals(mk())[0])
     item("c17GetattrMergeOrder", lambda: _c17_getattr_globals(mk())[1])
     item("attrsWrapRebinds", lambda: _rebinds(src("_make.py"), "attrs"))
